@@ -10,3 +10,13 @@ package packagerender
 
 //@ func package-operator.run/internal/packages/internal/packagerender.parseObjects
 //@   at Unmarshal#1 assert [C13] len(obj.Object) == 0
+
+// The order of the rendered objects is fixed by sorting the file paths and appending each file's documents in document
+// order. What is sorted are the keys of a map, hence pairwise distinct: the (unstable) sort cannot reorder equal keys,
+// and the result does not depend on the iteration order of the map.
+//@ func package-operator.run/internal/packages/internal/packagerender.RenderObjectsWithFilter
+//@   at sort.Slice#1 assert [C13] hastype("[]string", arg0) && len(asstruct("[]string", arg0)) == len(pathObjectMap)
+//@   at sort.Slice#1 assert [C13] forall a int, b int :: 0 <= a && a < b && b < len(asstruct("[]string", arg0)) ==> asstruct("[]string", arg0)[a] != asstruct("[]string", arg0)[b]
+//@   loop 1 invariant [C13] 0 <= i && i == visitedcount() && i <= len(paths) && len(paths) == len(pathObjectMap)
+//@   loop 1 invariant [C13] forall a int :: 0 <= a && a < i ==> visited(paths[a])
+//@   loop 1 invariant [C13] forall a int, b int :: 0 <= a && a < b && b < i ==> paths[a] != paths[b]
